@@ -124,23 +124,29 @@ struct RunOpts {
 inline void hmix(uint64_t& h, uint64_t v) { h ^= v + 0x9e3779b97f4a7c15ull + (h << 6) + (h >> 2); }
 inline void htr(uint64_t& h, const TrV& t) { hmix(h, t.valid); if (t.valid) { hmix(h, t.origin); hmix(h, t.dest); hmix(h, t.hasPay); if (t.hasPay) { hmix(h, t.seed); hmix(h, t.exact); } } }
 
-enum DigestMode { DG_ALL = 0, DG_NOLOG = 1, DG_CORE = 2 };
-// DG_NOLOG: without LOG events and OP_LOGGER brackets; DG_CORE: additionally without feature-dependent observers
-inline uint64_t digest(const Trace& t, int mode) {
+// what the digest covers beyond the core (callbacks, control view, activity): feature-dependent observers are included only
+// when the scenario uses that feature
+enum DigestBits { DGB_LOG = 1, DGB_PLAN = 2, DGB_PREV = 4, DGB_SERIAL = 8 };
+enum DigestMode { DG_ALL = 15, DG_NOLOG = 14, DG_CORE = 0 };
+inline uint64_t digest(const Trace& t, int mask) {
 	uint64_t h = 0x12345;
+	const bool withLog = (mask & DGB_LOG) != 0;
 	for (uint32_t i = 0; i < t.n; ++i) {
 		const Ev& e = t.ev[i];
-		if (mode != DG_ALL && e.kind == EV_LOG) continue;
-		if (mode != DG_ALL && (e.kind == EV_BEGIN || e.kind == EV_END) && e.method == OP_LOGGER) continue;
-		if (mode != DG_ALL && e.kind == EV_NOTE && e.method == NOTE_CONSTRUCT) { hmix(h, e.kind); hmix(h, e.inst); hmix(h, e.method); continue; }
+		if (!withLog && e.kind == EV_LOG) continue;
+		if (!withLog && (e.kind == EV_BEGIN || e.kind == EV_END) && e.method == OP_LOGGER) continue;
+		if (!withLog && e.kind == EV_NOTE && e.method == NOTE_CONSTRUCT) { hmix(h, e.kind); hmix(h, e.inst); hmix(h, e.method); continue; }
+		if (!(mask & DGB_SERIAL) && e.kind == EV_NOTE && (e.method == NOTE_CANARY || e.method == NOTE_BUFEQ || e.method == NOTE_BUFACT)) continue;
 		hmix(h, e.kind); hmix(h, e.inst); hmix(h, e.state); hmix(h, e.method); hmix(h, e.who); hmix(h, e.ctl);
 		hmix(h, e.a); hmix(h, e.b); hmix(h, e.c);
 		if (e.kind == EV_CB) { hmix(h, e.sid); hmix(h, e.ctxOk); hmix(h, e.evtOk); hmix(h, e.cAct); htr(h, e.req); htr(h, e.pend); htr(h, e.cur); }
 		if (e.kind == EV_NOTE && e.method == NOTE_AFTER) htr(h, e.req);
 		if (e.kind == EV_CB || e.kind == EV_BEGIN || e.kind == EV_END || (e.kind == EV_NOTE && e.method == NOTE_AFTER)) {
 			hmix(h, e.mAct); hmix(h, e.mManual); hmix(h, e.mActMask);
-			if (mode != DG_CORE) {
-				htr(h, e.prev); hmix(h, e.planFlags); hmix(h, e.planLen); hmix(h, e.hasSerial); hmix(h, e.serial);
+			if (mask & DGB_PREV) htr(h, e.prev);
+			if (mask & DGB_SERIAL) { hmix(h, e.hasSerial); hmix(h, e.serial); }
+			if (mask & DGB_PLAN) {
+				hmix(h, e.planFlags); hmix(h, e.planLen);
 				for (uint32_t k = 0; k < e.planLen; ++k) { const TaskV& q = t.pool[e.planOff + k]; hmix(h, q.origin); hmix(h, q.dest); hmix(h, q.hasPay); if (q.hasPay) hmix(h, q.seed); }
 			}
 		}
